@@ -165,3 +165,16 @@ Proof.
   - destruct H as [H|H]; [discriminate|exact H].
 Qed.
 Print Assumptions C09_stream_noop_exact.
+
+(* The send counter exhausted (enc_ctr = CounterGuard = 2^32-1) on a stream that holds a key but
+   is not encrypting: CryptoForSecretIsNoop is still false (the marker path is still required) and
+   PutSecret is refused - no frame is written, so the secret does not go out inline or in the
+   clear - and the stream stays non-encrypting with its counter unchanged. *)
+From Cedar Require Import Proofs.C09Counter.
+Theorem C09_stream_counter_max_refuses :
+  forall (s : stream) (d : bytes) (k : bytes) (s' : stream) (e : N) (fs : list frame),
+    key s = Some k -> encrypted s = false -> enc_ctr s = CounterGuard ->
+    run_sop s (OSecret d) = (s', e, fs) ->
+    secret_is_noop s = false /\ e <> 0 /\ fs = [] /\ encrypted s' = false /\ enc_ctr s' = CounterGuard.
+Proof. exact secret_refused_at_counter_max. Qed.
+Print Assumptions C09_stream_counter_max_refuses.
